@@ -387,6 +387,42 @@ func runCloseOnce(c *core.Ctx) {
 				}
 				c.Check(early, "Run:never-starts-after-Stop", gateLit.Pos(), "Run does not start if Stop was called first", "Run starts although Stop was already called (exitRequested): Stop has returned but critical sections would still commit, and awaitExit would be closed twice")
 			}
+			// nothing that can panic runs between the gate (which marks the context as started: requestExit != nil) and the
+			// registration of the epilogue: a panic there leaves a started context whose awaitExit is never closed
+			if gateLit != nil {
+				var gateCall ast.Node
+				for _, a := range g.FindAtoms(func(a ast.Node) bool {
+					call, ok := a.(*ast.CallExpr)
+					return ok && an.Unparen(call.Fun) == ast.Expr(gateLit)
+				}) {
+					gateCall = a
+				}
+				var between []string
+				if gateCall != nil {
+					g.AllAtoms(func(a ast.Node) {
+						call, ok := a.(*ast.CallExpr)
+						if !ok || a == gateCall {
+							return
+						}
+						if _, isDefer := g.Parent(a).(*ast.DeferStmt); isDefer {
+							return
+						}
+						if id, ok := an.Unparen(call.Fun).(*ast.Ident); ok {
+							if _, isB := info.Uses[id].(*types.Builtin); isB {
+								return
+							}
+						}
+						if tv, ok := info.Types[call.Fun]; ok && tv.IsType() {
+							return
+						}
+						if g.Search(an.Query{From: gateCall, Target: func(y ast.Node) bool { return y == a }, Avoid: func(y ast.Node) bool { return y == deferAtom }}).Found {
+							between = append(between, types.ExprString(call.Fun))
+						}
+					})
+				}
+				c.Check(gateCall != nil && len(between) == 0, "Run:epilogue-registered-right-after-the-gate", deferAtom.Pos(), "no call runs between the gate and the registration of the epilogue",
+					fmt.Sprintf("Run calls %v after the gate has marked the context as started but before the epilogue is registered: if that call panics (a missing parameter, a failing PreAmble) awaitExit is never closed and the resources are never cleaned up, so every later Stop blocks for ever", between))
+			}
 			// the epilogue nils requestExit under the lock so later Stops take case 2
 			nils := false
 			ast.Inspect(deferAtom, func(m ast.Node) bool {
